@@ -14,7 +14,8 @@
      * Overflow (error 6) is raised only if |N/D| > MAX(t) = max_scaled t, the soft result is then the largest
        number of type t with the sign of the exact result, and it IS raised whenever |N/D| >= 2^127
        (between MAX and 2^127 = MAX + 1 ulp the result may instead round to MAX itself: READING of "a result
-       whose magnitude exceeds the largest representable number" as the rounded result);
+       whose magnitude exceeds the largest representable number" as the rounded result; C04_band_* prove that
+       MAX itself is then the ONLY alternative to Overflow, for all four operations);
      * otherwise both modes return the same float r of type t;
      * r is a zero only if |N/D| < MIN = 2^-128 (min_scaled): a non-zero result is replaced by zero only below
        the smallest positive number (an exact zero trivially satisfies this);
@@ -86,6 +87,46 @@ Proof.
   rewrite E in H. destruct H as (_ & _ & _ & H). rewrite Hz in H. exact H.
 Qed.
 Print Assumptions C04_mul_underflow_only_below_min.
+
+(* the rounding band above MAX, made precise for * and / (error < 1 ulp): if the exact result exceeds the
+   largest number and Overflow is NOT raised, the result is exactly the signed maximum, in both handler modes
+   (so between MAX and 2^127 the only two outcomes are Overflow and +-MAX itself) *)
+Theorem C04_band_mul : forall x y r, value_ok x -> value_ok y -> is_num x = true -> is_num y = true ->
+  v_mul true x y = Ok r -> max_scaled (widest x y) * 2 ^ 184 < Z.abs (value_scaled x * value_scaled y) ->
+  value_scaled r = (if value_scaled x * value_scaled y <? 0 then -1 else 1) * max_scaled (widest x y) /\
+  v_mul false x y = Ok r.
+Proof.
+  intros x y r Hx Hy Nx Ny E Hbig. pose proof (v_mul_post x y Hx Hy Nx Ny) as H. rewrite E in H.
+  assert (HD : 0 < 2 ^ 184) by reflexivity.
+  exact (band_value (widest x y) _ (2 ^ 184) r _ (widest_cases x y) HD H Hbig).
+Qed.
+Print Assumptions C04_band_mul.
+
+Theorem C04_band_div : forall x y r, value_ok x -> value_ok y -> is_num x = true -> is_num y = true ->
+  value_scaled y <> 0 -> v_div true x y = Ok r ->
+  let N := value_scaled x * 2 ^ 184 * Z.sgn (value_scaled y) in
+  max_scaled (widest x y) * Z.abs (value_scaled y) < Z.abs N ->
+  value_scaled r = (if N <? 0 then -1 else 1) * max_scaled (widest x y) /\ v_div false x y = Ok r.
+Proof.
+  intros x y r Hx Hy Nx Ny Hy0 E N Hbig. pose proof (v_div_post x y Hx Hy Nx Ny Hy0) as H. rewrite E in H.
+  assert (HD : 0 < Z.abs (value_scaled y)) by lia.
+  exact (band_value (widest x y) N (Z.abs (value_scaled y)) r _ (widest_cases x y) HD H Hbig).
+Qed.
+Print Assumptions C04_band_div.
+
+(* the same for + and - : a true addition is in fact accurate to less than one unit in the last place
+   (add_core_same_strict), and a difference of opposite signs never exceeds MAX *)
+Theorem C04_band_add : forall x y r, value_ok x -> value_ok y -> is_num x = true -> is_num y = true ->
+  v_add true x y = Ok r -> max_scaled (widest x y) < Z.abs (value_scaled x + value_scaled y) ->
+  value_scaled r = (if value_scaled x + value_scaled y <? 0 then -1 else 1) * max_scaled (widest x y).
+Proof. exact (v_addsub_band false). Qed.
+Print Assumptions C04_band_add.
+
+Theorem C04_band_sub : forall x y r, value_ok x -> value_ok y -> is_num x = true -> is_num y = true ->
+  v_sub true x y = Ok r -> max_scaled (widest x y) < Z.abs (value_scaled x - value_scaled y) ->
+  value_scaled r = (if value_scaled x - value_scaled y <? 0 then -1 else 1) * max_scaled (widest x y).
+Proof. exact (v_addsub_band true). Qed.
+Print Assumptions C04_band_sub.
 
 (* the same statements at the byte level, for the regenerated in-place operations on two buffers of one class
    (sval_post: exact result N / Dn on the scale f_sval = value * 2^bias) *)
